@@ -460,6 +460,14 @@ unsafe fn dispose_general_node<T: RcObject>(
             let next_ref = next_ptr.deref();
             let link_epoch = next_ptr.high_tag() as u32;
 
+            // The epoch read at the top of this call goes stale while the subtree of an earlier
+            // child is disposed (this thread re-pins every 128 disposals, so the global epoch keeps
+            // advancing): a stamp written on this child in the meantime would fall outside the
+            // modular window and be taken for an ancient one. Use a fresh window for every child.
+            let curr_epoch = global_epoch();
+            vy!(1132, next_ptr.as_raw(), curr_epoch);
+            let modu: Modular<EPOCH_WIDTH> = Modular::new(curr_epoch as isize + 1);
+
             // Decrement next node's strong count and update its epoch.
             let next_cnt = loop {
                 vy!(118, next_ptr.as_raw(), link_epoch);
